@@ -98,7 +98,12 @@ M2Clauses(e) ==
       dp == e.pm - e.p       \* m2 values are logged with pm decimals, absolute with p
       lhs(k) == IF dp >= 0 THEN M(e, k) * an ELSE M(e, k) * an * Pow10(-dp)
       rhs(k) == IF dp >= 0 THEN B(e, k) * ad * Pow10(dp) ELSE B(e, k) * ad
-      tol == (IF dp >= 0 THEN Tol(e.magm) * an + Tol(e.mag) * ad * Pow10(dp) ELSE Tol(e.magm) * an * Pow10(-dp) + Tol(e.mag) * ad) + an + ad
+      \* results read from the program's JSON document are rounded to three decimals on both sides
+      cli == "cli" \in DOMAIN e /\ e.cli
+      resM == IF cli THEN Pow10(IMax(e.pm - 3, 0)) ELSE 0
+      resB == IF cli THEN Pow10(IMax(e.p - 3, 0)) ELSE 0
+      tol == (IF dp >= 0 THEN (Tol(e.magm) + resM) * an + (Tol(e.mag) + resB) * ad * Pow10(dp)
+              ELSE (Tol(e.magm) + resM) * an * Pow10(-dp) + (Tol(e.mag) + resB) * ad) + an + ad
       \* values too large for the cross products to stay inside 32 bits are compared after scaling both down
       big(k) == Abs(M(e, k)) > 2000000000 \div (an * Pow10(IMax(-dp, 0)) + 1) \/ Abs(B(e, k)) > 2000000000 \div (ad * Pow10(IMax(dp, 0)) + 1)
       okk(k) == IF big(k) THEN LET f == 1000 IN Abs((M(e, k) \div f) * an * Pow10(IMax(-dp, 0)) - (B(e, k) \div f) * ad * Pow10(IMax(dp, 0))) <= (tol \div f) + an + ad + an * Pow10(IMax(-dp, 0)) + ad * Pow10(IMax(dp, 0))
